@@ -52,7 +52,7 @@ def run_mutant(unit, kind, patch):
             detail = "; ".join(f.get("obligation", "") for f in r.get("failed", [])[:2]) or r.get("reason", "")
         else:
             u = kx.load_unit(unit)
-            out, _ = kx.run_unit_group([u], repo=dst, tag="selftest-" + tag)
+            out, _ = kx.run_unit_group([u], repo=dst, tier="thorough", tag="selftest-" + tag)   # mutants may only be refuted by thorough-tier harnesses
             sts = {h: r["status"] for h, r in out.items()}
             exp_fail = {h["name"] for h in u["harnesses"] if h.get("expect") == "fail"}
             caught = [h for h, s in sts.items() if s == "fail" and h not in exp_fail]
